@@ -178,4 +178,57 @@ func solveAll(obls []*Obligation, workDir string, timeoutS, seed, workers int, s
 	}
 	close(ch)
 	wg.Wait()
+	secondChance(obls, workDir, timeoutS, seed, single)
+}
+
+// secondChance re-runs proof obligations that ended without an answer (timeout / unknown) once the
+// machine is quiet: four at a time, four times the budget, two seeds. An obligation that is slow but
+// true must not become an alarm because the first pass shared sixteen cores with two dozen solver
+// processes or ran on a slower machine; one that stays undecided is still reported as failed.
+func secondChance(obls []*Obligation, workDir string, timeoutS, seed int, single string) {
+	var again []*Obligation
+	for _, o := range obls {
+		if !o.Syntactic && o.Expect == "unsat" && o.Status == "failed" && (o.Answer == "timeout" || o.Answer == "unknown") {
+			again = append(again, o)
+		}
+	}
+	if len(again) == 0 || os.Getenv("GOVC_NO_SECOND_PASS") != "" {
+		return
+	}
+	if len(again) > 24 {
+		again = again[:24] // a tree on which dozens of obligations stall is reported from the first pass
+	}
+	var wg sync.WaitGroup
+	ch := make(chan *Obligation)
+	for w := 0; w < 4; w++ {
+		wg.Add(1)
+		go func() {
+			defer wg.Done()
+			for o := range ch {
+				file := filepath.Join(workDir, sanitize(o.Name)+".smt2")
+				if _, err := os.Stat(file); err != nil {
+					if os.WriteFile(file, []byte(o.tr.text(o)), 0o644) != nil {
+						continue
+					}
+				}
+				for _, sd := range []int{seed, seed + 7} {
+					r := solveOne(file, 4*timeoutS, sd, single)
+					o.SecondPass = true
+					if r.answer == "unsat" || r.answer == "sat" {
+						o.Answer, o.Solver, o.TimeS, o.Model = r.answer, r.solver, o.TimeS+r.timeS, r.model
+						if r.answer == "unsat" {
+							o.Status = "discharged"
+						}
+						break
+					}
+					o.TimeS += r.timeS
+				}
+			}
+		}()
+	}
+	for _, o := range again {
+		ch <- o
+	}
+	close(ch)
+	wg.Wait()
 }
